@@ -43,6 +43,7 @@ package redisemu
 //@ ghost gTries int
 // the client is in the wait queues of its keys (set when it registers, cleared when the wake signal fires: the pusher takes a woken client out of every queue)
 //@ ghost gInQueues bool
+//@ ghost gLookedSinceQueued bool
 // the remaining time to the command's deadline as last computed, and whether it was computed since the last timer was armed
 //@ ghost gUntilFresh bool
 //@ ghost gUntilValue int64
@@ -50,10 +51,19 @@ package redisemu
 //@ prop C12 C11
 //@ mode int
 //@ safetyprop none
-//@ requires ctx != nil && ctx.dsc != nil && ctx.dsc.ds != nil && ctx.cs != nil
+//@ requires ctx != nil && ctx.dsc != nil && ctx.dsc.ds != nil && ctx.cs != nil && ctx.dsc.ds.waitingClients != nil
+// a context carrying the multi flag is being replayed by EXEC (store owned), one without it runs with the lock free
+//@ requires free replay: ctx.multi == held
 //@ ghostentry gWaitRegistered = false
 //@ ghostentry gTries = 0
 //@ ghostafter "output = op()" : gTries = gTries + 1
+// register-then-look: every wait is preceded by a look at the list made after the client (re-)entered the wait queues, so a push that lands between a failed look and the registration is not lost
+//@ ghostafter "output = op()" : gLookedSinceQueued = true
+//@ ghostafter "ws := blockFn()" : gLookedSinceQueued = false
+//@ ghostafter "ws = blockFn()" : gLookedSinceQueued = false
+//@ loop 1 invariant [C11] looked.after.queueing: gLookedSinceQueued
+//@ loop 1 invariant !held && ws != nil && !ctx.multi
+//@ assertbefore "ctx.dsc.ds.passWakeUp(ws)" [C11] handon.when.error: istype(output.data, respErrorString)
 //@ ghostafter "ws := blockFn()" : gWaitRegistered = true
 //@ ghostafter "ws := blockFn()" : gInQueues = true
 //@ ghostafter "ws = blockFn()" : gInQueues = true
@@ -63,9 +73,12 @@ package redisemu
 //@ loop 1 invariant [C11] queued.while.waiting: gInQueues
 //@ callback op
 //@ modifies *
+//@ ensures held == old(held)
 //@ endcallback
 //@ callback blockFn
 //@ modifies *
+//@ ensures result != nil
+//@ ensures held == old(held)
 //@ endcallback
 //@ callback keyNameStr
 //@ pure
@@ -167,3 +180,20 @@ package redisemu
 //@ requires ctx != nil && ctx.dsc != nil && ctx.dsc.ds != nil && ctx.cs != nil
 //@ modifies *
 //@ assertbefore "output = blockOnListChange(" [C12] timeout.checked: errText == ""
+
+// C11: a client that was woken for a push but ends with an error (BLMOVE onto a
+// key of another type) took nothing: it hands the wake-up to the next client
+// waiting for the key that raised it
+//@ func dataStore.passWakeUp
+//@ prop C11 C08 C16
+//@ guards on
+//@ safetyprop none
+//@ requires ds != nil && ds.waitingClients != nil && ws != nil
+//@ requires [C08,C16] unlocked: !held
+//@ requires free wf.queues: forall q *objectWaitList :: queueWF(q)
+//@ requires free wf.signals: forall w *wakeSignal :: signalWF(w)
+//@ requires free wf.table: forall k string :: haskey(ds.waitingClients.table, k) ==> ds.waitingClients.table[k] != nil
+//@ requires free table: ds.waitingClients.table != nil
+//@ modifies signalListTuple objectWaitList.queueHead objectWaitList.queueTail wakeSignal.objectsHead wakeSignal.objectsTail wakeSignal.raisedBy map ghost.gWakes ghost.gTableUnblocks ghost.gTableUnblockKey ghost.gTableUnblockN ghost.held
+//@ ensures [C11] handed.on: gTableUnblocks == old(gTableUnblocks) + 1 && gTableUnblockKey == old(ws.raisedBy) && gTableUnblockN == 1
+//@ ensures [C08,C16] released: !held
